@@ -554,40 +554,47 @@ example : seekFind wMark 0 (-5) wMark.len.toNat = none := by decide
 
 /-! ### xmp_restart_module / xmp_stop_module -/
 
-/-- **C17_restart_stop (restart)**: `xmp_restart_module` clears the loop counter, and the next
-frame is row 0, tick 0 of the first order with a pattern from the entry point `e` of the current
-sequence (`t = e + k`, the `k` orders in between hold no pattern), in the same sequence; the
-loop counter is still 0 after that frame unless the frame is the recorded end point of the
-sequence with a visit count of 0 (storlek_11.it). -/
+/-- **C17_restart_stop (restart)**: `xmp_restart_module` clears the loop counter and the flow
+state of the row it abandons, and — for every pre-state, including the middle of a pattern
+delay, a pending break / jump / row delay / pattern loop — the next frame is row 0, tick 0 of the
+first order with a pattern from the entry point `e` of the current sequence (`t = e + k`, the `k`
+orders in between hold no pattern), in the same sequence, with NO delay, break, jump or loop
+pending when `read_row` starts (`LandsOn`); the loop counter is still 0 after that frame unless
+the frame is the recorded end point of the sequence with a visit count of 0 (storlek_11.it). -/
 theorem C17_restart (m : CMod) (s : St) (t : Int) (k : Nat) (hs : s.playing = true)
     (hend : ¬(m.marker = true ∧ m.xxoAt s.ord = 0xff)) (hord : s.ord ≠ -1)
     (he0 : 0 ≤ m.entry s.sequence) (hk : t = m.entry s.sequence + k) (hfuel : k < 600)
     (hv : Valid m t) (hsk : ∀ j, m.entry s.sequence ≤ j → j < t → Skippable m j) :
     (xmpRestart s).loopCount = 0 ∧
-    ∃ fr, playFrame m (xmpRestart s) = some fr ∧ Enters m s fr t s.sequence ∧
+    ∃ fr, playFrame m (xmpRestart s) = some fr ∧ LandsOn m s fr t s.sequence ∧
       (¬(t = (m.seqAt s.sequence).scanOrd ∧ 0 = (m.seqAt s.sequence).scanRow ∧
          ((m.seqAt s.sequence).scanNum = 0 ∨ m.entry s.sequence > (m.seqAt s.sequence).scanOrd)) →
         (frameInfo m fr.st).loopCount = 0) := by
-  have hr : xmpRestart s = { s with loopCount := 0, pos := -1 } := by simp [xmpRestart, hs]
+  have hr : xmpRestart s = { s with loopCount := 0, pos := -1, f := resetFlow s.f } := by simp [xmpRestart, hs]
   rw [hr]
-  refine ⟨rfl, ⟨0, some (entered m { s with loopCount := 0, pos := -1 } t
-      (repoEndPoint m { s with loopCount := 0, pos := -1 } (m.entry s.sequence))),
-    checkEnd m (entered m { s with loopCount := 0, pos := -1 } t
-      (repoEndPoint m { s with loopCount := 0, pos := -1 } (m.entry s.sequence)))⟩, ?_, ?_, ?_⟩
-  · exact playFrame_enters_skip m { s with loopCount := 0, pos := -1 } (m.entry s.sequence) t k hs hend hord
-      (by show (-1 : Int) ≠ -2; decide) hv he0 hk hsk (Or.inr ⟨rfl, rfl⟩) (Int.le_refl _) hfuel
-  · exact enters_entered m s { s with loopCount := 0, pos := -1 } t s.sequence _ hv rfl rfl
+  generalize hs0 : ({ s with loopCount := 0, pos := -1, f := resetFlow s.f } : St) = s0
+  have a1 : s0.playing = true := by subst hs0; exact hs
+  have a2 : s0.ord = s.ord := by subst hs0; rfl
+  have a3 : s0.pos = -1 := by subst hs0; rfl
+  have a4 : s0.sequence = s.sequence := by subst hs0; rfl
+  have a5 : s0.loopCount = 0 := by subst hs0; rfl
+  have a6 : s0.speed = s.speed := by subst hs0; rfl
+  have a7 : s0.f = resetFlow s.f := by subst hs0; rfl
+  refine ⟨a5, ⟨0, some (entered m s0 t (repoEndPoint m s0 (m.entry s.sequence))),
+    checkEnd m (entered m s0 t (repoEndPoint m s0 (m.entry s.sequence)))⟩, ?_, ?_, ?_⟩
+  · exact playFrame_enters_skip m s0 (m.entry s.sequence) t k a1 (by rw [a2]; exact hend) (by rw [a2, a3]; exact hord)
+      (by rw [a3]; decide) hv he0 hk hsk (Or.inr ⟨a3, by rw [a4]⟩) (by rw [a4]; exact Int.le_refl _) hfuel
+  · exact landsOn_entered m s s0 t s.sequence _ hv a4 a6 (by rw [a7]; simp [resetFlow])
   · intro hne
-    obtain ⟨e1, _, e3, _, e5, _, _, _, _, e10, _, e12⟩ := entered_fields m { s with loopCount := 0, pos := -1 } t
-      (repoEndPoint m { s with loopCount := 0, pos := -1 } (m.entry s.sequence))
+    obtain ⟨e1, _, e3, _, e5, _, _, _, _, e10, _, e12⟩ := entered_fields m s0 t (repoEndPoint m s0 (m.entry s.sequence))
     show (checkEnd m _).loopCount = 0
     rw [checkEnd_loopCount]
-    · rw [e10]
-    · rw [e1, e3, e5, e12]
+    · rw [e10]; exact a5
+    · rw [e1, e3, e5, e12, a4]
       intro ⟨h1, h2, h3⟩
       apply hne
       refine ⟨h1, h2, ?_⟩
-      simp only [repoEndPoint, CMod.entry] at h3
+      simp only [repoEndPoint, CMod.entry, a4, a3] at h3
       by_cases hgt : (m.seqAt s.sequence).entry > (m.seqAt s.sequence).scanOrd
       · right; exact hgt
       · left; simpa [hgt] using h3
@@ -606,7 +613,7 @@ theorem C17_stop (m : CMod) (s : St) (hs : s.playing = true) (hord : s.ord ≠ -
     · simp [hs, h1, h2, hord]
 
 /-- restart from the middle of order 2 of `wMark` (sequence 0) … -/
-example : ∃ fr, playFrame wMark (xmpRestart (wMarkAt 2)) = some fr ∧ Enters wMark (wMarkAt 2) fr 0 0 ∧
+example : ∃ fr, playFrame wMark (xmpRestart (wMarkAt 2)) = some fr ∧ LandsOn wMark (wMarkAt 2) fr 0 0 ∧
     (¬((0 : Int) = (wMark.seqAt 0).scanOrd ∧ 0 = (wMark.seqAt 0).scanRow ∧
       ((wMark.seqAt 0).scanNum = 0 ∨ wMark.entry 0 > (wMark.seqAt 0).scanOrd)) → (frameInfo wMark fr.st).loopCount = 0) :=
   (C17_restart wMark (wMarkAt 2) 0 0 rfl (by decide) (by decide) (by decide) (by decide) (by decide) (by decide)
